@@ -81,6 +81,33 @@ def register(reg):
             flags={'max_paths': 50},
             ensures=[("system", system_post)])
 
+    # get_rates_*: one arbitrary iteration of the loading loop - the entry stored under charge i is the rate that THE GIVEN atomic data
+    # source returns for (element, i) [resp. (donor, donor_charge, receiver, i)]
+    def rate_entry(method, argtexts):
+        def post(P):
+            ev = P.calls('setitem')
+            out = [("rates.one_store_per_charge", z3.BoolVal(len(ev) == 1))]
+            if len(ev) != 1:
+                return out
+            e = ev[0]
+            out.append(("rates.stored_in_result_dict", as_bool(P.eng.identical(e.recv, P.value(DICT[method])))))
+            out.append(("rates.key_is_charge", to_int_(e.args[0]) == to_int_(P.value("i"))))
+            want = P.value("atomic_data.%s(%s)" % (method, argtexts))
+            out.append(("rates.value_from_given_source", as_bool(P.eng.identical(e.args[1], want))))
+            return out
+        return post
+    DICT = {"ionisation_rate": "coef_ionis", "recombination_rate": "coef_recom", "thermal_cx_rate": "coef_tcx"}
+    from pyvc.values import to_int as to_int_
+    for fn, method, args, extra in (("get_rates_ionisation", "ionisation_rate", "element, i", {"element": "ref:Element!"}),
+                                    ("get_rates_recombination", "recombination_rate", "element, i", {"element": "ref:Element!"}),
+                                    ("get_rates_tcx", "thermal_cx_rate", "donor, donor_charge, receiver, i",
+                                     {"donor": "ref:Element!", "receiver": "ref:Element!", "donor_charge": "int"})):
+        reg.contract(F, fn, PROP, name='entry', flags={'loop_body': 0},
+            sorts=dict({"atomic_data": "ref:AtomicData!", "i": "int", DICT[method]: "ref:Dict!"}, **extra),
+            externals={'.' + method: {'kind': 'pure', 'result': 'ref', 'doc': 'atomic data provider: %s' % method},
+                       '.__setitem__': {'kind': 'logged', 'result': 'none', 'label': 'setitem', 'doc': 'dict store'}},
+            ensures=[("entry", rate_entry(method, args))])
+
     # *_point helpers: which CX coefficient list is passed on
     for fn, dens in (("_from_element_density_point", "tcx_donor_n"), ("_match_element_density_point", "tcx_donor_density")):
         for donor in (False, True):
@@ -198,8 +225,15 @@ def _neutrality(ctx, eng):
                           "return abundance" in src, 'charge-state densities = fractions x element density'))
     for fn, rng in (("get_rates_ionisation", "range(0, element.atomic_number)"), ("get_rates_recombination", "range(1, element.atomic_number + 1)"),
                     ("get_rates_tcx", "range(1, receiver.atomic_number + 1)")):
-        s = ast.unparse(tree.find_func(F, fn))
+        f_ = tree.find_func(F, fn)
+        s = ast.unparse(f_)
         out.append(structural('rates/%s.index_range' % fn, PROP, rng in s, rng))
+        body = [b for b in f_.body if not (isinstance(b, ast.Expr) and isinstance(b.value, ast.Constant))]
+        shape = (len(body) == 3 and isinstance(body[0], ast.Assign) and isinstance(body[0].value, ast.Dict) and not body[0].value.keys
+                 and isinstance(body[1], ast.For) and isinstance(body[2], ast.Return) and isinstance(body[2].value, ast.Name)
+                 and ast.unparse(body[0].targets[0]) == body[2].value.id)
+        out.append(structural('rates/%s.returns-the-dictionary-it-filled' % fn, PROP, shape,
+                              'body = [d = {}; for ...: d[i] = ...; return d] (what the arbitrary-iteration contract assumes around the loop)'))
     return out
 
 
@@ -208,6 +242,40 @@ GENERATORS = [_neutrality]
 
 def native_replay(ctx, o):
     """A supplied CX coefficient list must reach the balance solver: compare the *_point helper with the direct solver call."""
+    if 'get_rates' in o.name or 'rates/' in o.name:
+        # the rate dictionaries must come from the atomic data source that is passed in - also when sources are created, used and dropped one
+        # after the other in one process (a later source may get the memory address of an earlier one)
+        from replaylib.native import run_native
+        code = '''
+import gc
+from cherab.core.atomic import AtomicData, neon, hydrogen
+from cherab.tools.plasmas.ionisation_balance import get_rates_ionisation, get_rates_recombination, get_rates_tcx
+class Rate:
+    def __init__(self, tag): self.tag = tag
+class Source(AtomicData):
+    def __init__(self, k): self.k = k
+    def ionisation_rate(self, ion, charge): return Rate(("ion", self.k, ion.name, charge))
+    def recombination_rate(self, ion, charge): return Rate(("rec", self.k, ion.name, charge))
+    def thermal_cx_rate(self, donor, donor_charge, receiver, charge): return Rate(("tcx", self.k, donor.name, donor_charge, receiver.name, charge))
+bad = []
+def study(k):
+    s = Source(k)
+    a, b, c = get_rates_ionisation(s, neon), get_rates_recombination(s, neon), get_rates_tcx(s, hydrogen, 0, neon)
+    for name, d, rng in (("get_rates_ionisation", a, range(0, 10)), ("get_rates_recombination", b, range(1, 11)), ("get_rates_tcx", c, range(1, 11))):
+        if sorted(int(x) for x in d.keys()) != list(rng):
+            bad.append({"function": name, "study": k, "charges": sorted(int(x) for x in d.keys())}); continue
+        for q in rng:
+            if d[q].tag[1] != k or d[q].tag[-1] != q:
+                bad.append({"function": name, "study": k, "charge": q, "rate_comes_from_source": d[q].tag[1]}); break
+for k in range(40):
+    study(k); gc.collect()
+print(json.dumps({"bad": bad[:3], "nbad": len(bad)}))
+'''
+        out = run_native(ctx, code, timeout=300)
+        exp = 'every entry is the rate object returned by the source passed to the call, for its own charge'
+        if out and out.get('nbad'):
+            return {'confirmed': True, 'input': out['bad'][0], 'observed': out, 'expected': exp}
+        return {'confirmed': False, 'input': None, 'observed': out, 'expected': exp}
     if 'donor_has_cx_coefficients' not in o.name and 'supplied_coefficients_used' not in o.name:
         return None
     fn = '_from_element_density_point' if '_from_element_density_point' in o.name else '_match_element_density_point'
